@@ -289,7 +289,15 @@ class Signed(BitVector):
 
         if rhs == 0:
             return Signed[result_width]()
-        return Signed[result_width](_int_truncdiv(lhs, rhs))
+
+        quotient = _int_truncdiv(lhs, rhs)
+
+        if quotient == 2 ** (result_width - 1):
+            # the only quotient that is not representable (min / -1)
+            # wraps like the result of the VHDL operator
+            quotient = -quotient
+
+        return Signed[result_width](quotient)
 
     @_intrinsic
     def _cohdl_rtruncdiv_(self, lhs: Signed) -> Signed:
@@ -306,7 +314,15 @@ class Signed(BitVector):
 
         if rhs == 0:
             return Signed[result_width]()
-        return Signed[result_width](_int_truncdiv(lhs, rhs))
+
+        quotient = _int_truncdiv(lhs, rhs)
+
+        if quotient == 2 ** (result_width - 1):
+            # the only quotient that is not representable (min / -1)
+            # wraps like the result of the VHDL operator
+            quotient = -quotient
+
+        return Signed[result_width](quotient)
 
     @_intrinsic
     def __mod__(self, rhs: Signed) -> Signed:
